@@ -659,6 +659,66 @@ func passMutations(r *common.Run, st *stats) {
 	r.Set("mutants", len(jobs))
 }
 
+
+// ---- pass W: blank padding of printed forms ------------------------------------------------
+//
+// Callers other than the graph reader hand lines to the parsers untrimmed. Every printed form is
+// padded with runs of blanks: lead and trail runs of every length up to the bound (longer than the
+// longest component, so that offsets computed on one copy of the line and applied to a trimmed copy
+// leave the string), and for triples runs of blanks after each separator.
+
+func paddings(s string, lead, trail, inner int) []string {
+	var out []string
+	for _, ch := range []string{" ", "\t", " \t"} {
+		for l := 0; l <= lead; l++ {
+			for t := 0; t <= trail; t++ {
+				if l == 0 && t == 0 {
+					continue
+				}
+				out = append(out, strings.Repeat(ch, l)[:l]+s+strings.Repeat(ch, t)[:t])
+			}
+		}
+		for k := 1; k <= inner; k++ {
+			pad := strings.Repeat(ch, k)[:k]
+			for i := 0; i < len(s); i++ {
+				if s[i] == '\t' {
+					out = append(out, s[:i+1]+pad+s[i+1:], s[:i]+pad+s[i:], pad+s[:i+1]+pad+s[i+1:])
+				}
+			}
+		}
+	}
+	return out
+}
+
+func passPadding(r *common.Run, st *stats) {
+	forms := printedForms(r.Thorough())
+	lead, trail, inner := r.Pick(40, 96), r.Pick(3, 6), r.Pick(4, 12)
+	type job struct{ fam, in string }
+	var jobs []job
+	for _, fam := range []string{"node", "predicate", "literal", "triple"} {
+		for _, f := range forms[fam] {
+			in := 0
+			if fam == "triple" {
+				in = inner
+			}
+			for _, m := range paddings(f, lead, trail, in) {
+				jobs = append(jobs, job{fam, m})
+			}
+		}
+	}
+	common.ParallelFor(len(jobs), func(i int) {
+		j := jobs[i]
+		for _, p := range parsersFor(j.fam) {
+			st.one(r, p, j.in, "padding")
+		}
+		if j.fam != "triple" {
+			st.one(r, "object", j.in, "padding")
+		}
+	})
+	r.Set("padding_max_lead", lead)
+	r.Set("padded_strings", len(jobs))
+}
+
 // ---- the graph reader ------------------------------------------------------------------------
 
 type line struct {
@@ -873,19 +933,20 @@ func main() {
 	passStrings(r, st)
 	passComponents(r, st)
 	passMutations(r, st)
+	passPadding(r, st)
 	r.Add("evaluations", int(st.evals))
 	r.Set("parses_accepted_and_reprinted", int(st.accepted))
 	r.Set("parses_rejected_with_error", int(st.rejected))
 	r.Set("parses_failing_oracle", int(st.failed))
 	r.Set("distinct_nontrivial", st.distinct())
-	r.Set("states", r.Get("general_strings")+r.Get("focused_strings")+r.Get("component_strings")+r.Get("mutants"))
+	r.Set("states", r.Get("general_strings")+r.Get("focused_strings")+r.Get("component_strings")+r.Get("mutants")+r.Get("padded_strings"))
 	r.Set("transitions", int(st.evals))
 	r.Set("traces_validated_against_impl", int(st.evals))
 	r.Set("parsers", strings.Join(parsers, ","))
 	r.Sample(pcase{Parser: "predicate", Input: `"a"@[` + instant + `]`})
 	r.Sample(pcase{Parser: "literal-bounded", Input: `"[1]"^^type:blob`, Bound: boundMax})
 	passReader(r)
-	r.Set("rule", "all strings up to the length bound over the general and focused alphabets, all strings of components, all single mutations of printed forms -> every parser: no panic, never (nothing,nil), well-formed, accepted => reprint re-parses equal; all line sequences up to the bound -> ReadIntoGraph loads exactly the valid lines before the first malformed one; states = input strings enumerated (distinct within each pass; the passes overlap); transitions = parser invocations on them; distinct_nontrivial = distinct (parser, input) pairs that were ACCEPTED, i.e. reached the reprint/re-parse clause (64-bit FNV of the pair, counted in a set)")
+	r.Set("rule", "all strings up to the length bound over the general and focused alphabets, all strings of components, all single mutations of printed forms, every blank padding of printed forms up to the bound (lead, trail, after separators) -> every parser: no panic, never (nothing,nil), well-formed, accepted => reprint re-parses equal; all line sequences up to the bound -> ReadIntoGraph loads exactly the valid lines before the first malformed one; states = input strings enumerated (distinct within each pass; the passes overlap); transitions = parser invocations on them; distinct_nontrivial = distinct (parser, input) pairs that were ACCEPTED, i.e. reached the reprint/re-parse clause (64-bit FNV of the pair, counted in a set)")
 	pprof.StopCPUProfile()
 	r.Finish()
 }
